@@ -9,7 +9,7 @@ PROP = {
     "rule": "cases = generated scripts of 10-45 messages (document notifications, 26 request kinds, watched-file events incl. .emmyrc.json reloads, didChangeConfiguration, didSave with reindex, cancels, pull and push diagnostics clients) run on the real dispatch with traced locks and seeded yields at every lock request; "
             "clauses: no inline dispatch stalls for 900 virtual seconds, locks available and no request pending at quiescence, no lock requested while already held by the task, requested-while-holding graph acyclic; distinct = hash of the lock-event interleaving; non-trivial = >= 30 lock events",
     "min_nontrivial": {"quick": 900, "thorough": 60000},
-    "max_secs": {"quick": 600, "thorough": 1200},
+    "max_secs": {"quick": 600, "thorough": 1500},
     "require_clauses": ["trace-checked", "lock-events"],
     "assumptions": COMMON_ASSUME + ["lock identity = the protected value's type (one instance of each per server)", "cooperative single-thread scheduling with seeded yields; the order graph predicts deadlocks of interleavings that were not produced, but only over lock sites the workload reached (listed in evidence as lock_sites_covered)", "no TLA+ model is built (different technique family)"],
     "level_text": "Every lock acquisition of the real server code is traced; ~2k (quick) scripts produce ~10^6 lock events whose nesting is checked for re-entrancy and order cycles, and the simulator detects an actually wedged server in virtual time.",
